@@ -223,7 +223,9 @@ func extractNonce(presentation vc.VerifiablePresentation) (string, error) {
 // s2sNonceKey is used in the s2sNonceStore
 var s2sNonceKey = []string{"s2s", "nonce"}
 
-// s2sNonceStore is used by the authorization server for replay prevention by keeping track of used nonces in the s2s flow
+// s2sNonceStore is used by the authorization server for replay prevention by keeping track of used nonces in the s2s flow.
+// A nonce is kept for as long as the presentation that carries it can be accepted: a presentation may be post-dated by the
+// max. clock skew, is valid for at most s2sMaxPresentationValidity and is still accepted the max. clock skew after it expired.
 func (r Wrapper) s2sNonceStore() storage.SessionStore {
-	return r.storageEngine.GetSessionDatabase().GetStore(s2sMaxPresentationValidity+s2sMaxClockSkew, s2sNonceKey...)
+	return r.storageEngine.GetSessionDatabase().GetStore(s2sMaxPresentationValidity+2*s2sMaxClockSkew, s2sNonceKey...)
 }
